@@ -26,28 +26,56 @@ def productions(fn):
     return head.strip(), alts
 
 
-def ci_token_classes(mod):
-    """Token types assigned in t_NAME under a test on folded text."""
+def ci_token_classes(mod, afs=None):
+    """Token types t_NAME assigns, found by executing t_NAME (consteval) on words of every table it consults, each in lower, upper and mixed case.
+    Returns (types assigned whatever the case -- '<KEYWORDS>' standing for the keyword types --, [(type, spelling) classified in one case only])."""
+    from ..consteval import Evaluator, Obj, NotConst, PyRaise, module_env
     fn = mod.func('t_NAME')
-    classes = set()
-    raw_tests = []
-    for n in ast.walk(fn):
-        if isinstance(n, ast.If):
-            test = u(n.test)
-            for s in n.body:
-                if isinstance(s, ast.Assign) and u(s.targets[0]).endswith('.type'):
-                    folded = '.lower()' in test or '.upper()' in test
-                    v = s.value
-                    if isinstance(v, ast.Constant):
-                        if folded:
-                            classes.add(v.value)
-                        else:
-                            raw_tests.append((v.value, test))
-                    elif '.upper()' in u(v) and 'keywords' in test:
-                        classes.add('<KEYWORDS>')
-                    else:
-                        raise AnalysisError('t_NAME assigns an unmodelled token type: %s' % u(s))
-    return classes, raw_tests
+    env, _sk = module_env(mod, {'x86_afs': afs} if afs is not None else {})
+    tables = {}
+    for nm in ('keywords', 'segments', 'registers'):
+        v = env.get(nm)
+        if isinstance(v, (list, tuple, dict, set)):
+            tables[nm] = [w for w in v if isinstance(w, str)]
+    if not tables:
+        raise AnalysisError('%s: none of the tables keywords / segments / registers is evaluable' % mod.name)
+
+    def classify(word):
+        t = Obj('t')
+        t.value, t.type = word, 'NAME'
+        lexer = Obj('lexer')
+        lexer.lineno = 1
+        t.lexer = lexer
+        scope = dict(env)
+        for fname_, fnode_ in mod.funcs.items():
+            scope.setdefault(fname_, fnode_)
+        try:
+            Evaluator(scope).call_user(fn, [t])
+        except (NotConst, PyRaise) as e:
+            raise AnalysisError('%s.t_NAME is outside the evaluable subset on %r: %s' % (mod.name, word, e))
+        return t.type
+    # words the function compares with directly (t.value.lower() == 'st')
+    lits = sorted(set(c.value for n in ast.walk(fn) if isinstance(n, ast.Compare) for c in ast.walk(n) if isinstance(c, ast.Constant) and isinstance(c.value, str) and c.value.isalnum()))
+    if lits:
+        tables['~literals'] = lits
+    classes, raw = set(), []
+    for nm, words in sorted(tables.items()):
+        for w in sorted(words)[:6] + sorted(words)[-3:]:
+            lo, up = w.lower(), w.upper()
+            mixed = lo[:1].upper() + lo[1:] if len(lo) > 1 else up
+            got = dict((sp, classify(sp)) for sp in (lo, up, mixed))
+            types = set(got.values())
+            if types == {'NAME'}:
+                continue
+            if len(types) == 1:
+                ty = types.pop()
+                classes.add('<KEYWORDS>' if nm == 'keywords' and ty == up else ty)
+            else:
+                ref_ty = got[lo]
+                for sp, ty in sorted(got.items()):
+                    if ty != ref_ty:
+                        raw.append((ref_ty if ref_ty != 'NAME' else ty, 'the spelling %r is classified %s, %r is %s' % (sp, ty, lo, ref_ty)))
+    return classes, sorted(set(raw))
 
 
 def folded_use(node):
@@ -108,7 +136,8 @@ def run(ctx, report):
     n_actions = 0
     for mname, gname in GRAMMARS:
         mod = ctx.mod(mname)
-        ci, raw = ci_token_classes(mod)
+        from ..x86table import model as _x86m
+        ci, raw = ci_token_classes(mod, _x86m(ctx).afs)
         kw = []
         if '<KEYWORDS>' in ci:
             from ..consteval import Evaluator
@@ -195,7 +224,18 @@ def run(ctx, report):
                     stxt = u(st)
                     if 'x86_afs.imm' in stxt:
                         inst = '%s.%s:NUMBER t[%d]' % (mname, fname, i)
-                        if 'int32(uint32(int(%s[%d])))' % (tparam, i) in stxt:
+                        def wrapped_by_helper():
+                            # NUMBER handed to a module-level helper that applies the wrap to its parameter
+                            for c_ in ast.walk(st):
+                                if isinstance(c_, ast.Call) and isinstance(c_.func, ast.Name) and c_.func.id in mod.funcs and len(c_.args) == 1 \
+                                        and u(c_.args[0]) == '%s[%d]' % (tparam, i):
+                                    h_ = mod.funcs[c_.func.id]
+                                    if len(h_.args.args) == 1:
+                                        hp_ = h_.args.args[0].arg
+                                        if any(isinstance(r_, ast.Return) and r_.value is not None and 'int32(uint32(int(%s)))' % hp_ in u(r_.value) for r_ in ast.walk(h_)):
+                                            return True
+                            return False
+                        if 'int32(uint32(int(%s[%d])))' % (tparam, i) in stxt or wrapped_by_helper():
                             R2.ok(inst, sample='%s: %s' % (inst, stxt))
                         else:
                             R2.violation(inst, '%s.%s:%s' % (mname, fname, stxt),
@@ -207,7 +247,7 @@ def run(ctx, report):
     # D2 (evaluated): the displacement written before the brackets is added with the sign it is written with
     disp_outside_rule(ctx, R2)
 
-    R3 = report.rule('C19.D3', 'both operand grammars give base+index*scale the same meaning when base and index coincide', floor=2)
+    R3 = report.rule('C19.D3', 'both operand grammars give base+index*scale the same meaning when base and index coincide', floor=1)
     from .c02 import accumulate_rule
     accumulate_rule(R3, ctx.mod('ia32_att'), ctx.mod('parse_ad'))
 
@@ -461,6 +501,8 @@ def disp_outside_rule(ctx, R):
                     raise AnalysisError('%s: unmodelled symbol %s in a displacement production' % (fname, sym))
             env = {'x86_afs': afs, 'uint32': Native(lambda x: int(x) & 0xFFFFFFFF),
                    'int32': Native(lambda x: (int(x) & 0xFFFFFFFF) - (1 << 32) if (int(x) & 0xFFFFFFFF) >> 31 else int(x) & 0xFFFFFFFF)}
+            for hn_, hf_ in mod.funcs.items():
+                env.setdefault(hn_, hf_)           # helpers the actions call (number_value(..), ..)
             inst = '%s: %s' % (fname, ' '.join(alt))
             try:
                 Evaluator(env).call_user(fn, [t])
